@@ -25,7 +25,7 @@ PRECS = [2, 4, 8]
 
 def gen_case(rng, idx, first=None):
     ru = rng.random() < 0.15        # one conv / linear module invoked twice (same or other resolution)
-    nodes = G.gen_spec(rng, first='reuse2' if (ru and rng.random() < 0.7) else first, dim=1 if rng.random() < 0.2 else 2, padmodes=True, reuse=ru)     # 1 in 5: Conv1d network
+    nodes = G.gen_spec(rng, first='reuse2' if (ru and rng.random() < 0.7) else first, dim=1 if rng.random() < 0.2 else 2, padmodes=True, reuse=ru, evenk=True)     # 1 in 5: Conv1d network
     if rng.random() < 0.6:        # biased depthwise / residual pairs (shared weight quantizer) must occur often
         for nd in nodes:
             if nd['k'] in ('conv', 'dw'):
@@ -39,6 +39,9 @@ def gen_case(rng, idx, first=None):
             # when summary() / export() are called: after an eval forward (default); right after TRAINING-mode forwards with
             # Gumbel sampling (the sampled coefficients are noisy); after the coefficients were changed with no forward since
             'seq': rng.choice(['eval', 'eval', 'gumbel-train', 'alpha-update']),
+            # export() called again (1-2 more times) on the same MPS object after coefficient / weight changes written in several ways
+            'rounds': [{'what': rng.choice(['alpha', 'alpha', 'weight', 'both']), 'fwd': rng.random() < 0.4,
+                        'how': rng.choice(['copy_', 'data=', 'data.copy_', 'data[i]=', 'optimizer', 'load_state_dict'])} for _ in range(rng.choice([0, 0, 1, 1, 2]))],
             # 1 in 3: the model under test is a deepcopy / pickle round trip of the MPS model taken right after construction,
             # in training mode, or after a coefficient change without forward; its coefficients are changed afterwards
             'copy': ({'at': rng.choice(['construct', 'train', 'after-alpha']), 'how': rng.choice(['deepcopy', 'deepcopy', 'pickle'])} if rng.random() < 0.34 else None),
@@ -233,6 +236,72 @@ def run_case(c):
                                'in': int(ex.in_quantizer.precision), 'same_object': ex.in_quantizer is pm.out_quantizer}
         obs.update(layers={str(k): v for k, v in layers.items()}, quantizers={str(k): v for k, v in qinfo.items()},
                    producer={str(k): v for k, v in prod.items()}, n_summary=len(summ))
+        # export() again on the SAME MPS object after the coefficients / weights were changed, written in several ways;
+        # each export must equal the eval-mode model and summary() at that moment
+        rounds = []
+        for k_, rd in enumerate([] if G.has_reuse(nodes) else c.get('rounds', [])):
+            stage = 'round-%d-change' % (k_ + 1)
+            # (targets are computed without touching any parameter)
+            tg = G.alpha_targets(random.Random(c['aseed'] + 7919 * (k_ + 1)), p)
+            params = [(n_, q_) for n_, q_, _ in tg]
+            targets = [t_ for _, _, t_ in tg]
+            todo = []
+            if rd['what'] in ('alpha', 'both'):
+                todo += list(zip(params, targets))
+            if rd['what'] in ('weight', 'both'):
+                wl = [(nm + '.weight', md.weight) for i_, (nm, md) in sorted(L.items()) if hasattr(md, 'weight')]
+                wn, wp_ = wl[(c['aseed'] + k_) % len(wl)]
+                todo.append((('seed.' + wn, wp_), wp_.detach() * 1.5 + 0.01))
+            how = rd['how']
+            if how == 'load_state_dict':
+                sd = p.state_dict()
+                for (n_, q_), t_ in todo:
+                    key_ = [kk for kk, vv in sd.items() if vv.data_ptr() == q_.data_ptr() and vv.shape == q_.shape][0]
+                    sd[key_] = t_.clone()
+                p.load_state_dict(sd)
+            elif how == 'optimizer':
+                opt = torch.optim.SGD([q_ for (_, q_), _ in todo], lr=1.0)
+                opt.zero_grad()
+                for (_, q_), t_ in todo:
+                    q_.grad = (q_.detach() - t_)
+                opt.step()
+            else:
+                for (_, q_), t_ in todo:
+                    if how == 'copy_':
+                        with torch.no_grad():
+                            q_.copy_(t_)
+                    elif how == 'data=':
+                        q_.data = t_.clone()
+                    elif how == 'data.copy_':
+                        q_.data.copy_(t_)
+                    elif how == 'data[i]=':
+                        flat_t = t_.reshape(-1)
+                        for j_ in range(flat_t.numel()):
+                            q_.data.view(-1)[j_] = flat_t[j_]
+            if rd.get('fwd'):
+                p.eval()
+                with torch.no_grad():
+                    p(x)
+            stage = 'round-%d-export' % (k_ + 1)
+            s2 = p.summary()
+            e2 = p.export()
+            p.eval()
+            e2.eval()
+            with torch.no_grad():
+                y_ = p(x)
+                ye_ = e2(x)
+            bad = []
+            for i_, (nm, md) in sorted(L.items()):
+                ex_ = e2.get_submodule(nm)
+                for slot, eattr, key in (('in', 'in_quantizer', 'in_precision'), ('out', 'out_quantizer', 'out_precision'), ('w', 'w_quantizer', 'w_precision')):
+                    if key in s2.get(nm, {}) and hasattr(ex_, eattr):
+                        mq = getattr(md, eattr.replace('_quantizer', '_mps_quantizer'))
+                        am = int(mq.precision[int(torch.argmax(mq.alpha))])
+                        if int(getattr(ex_, eattr).precision) != s2[nm][key] or s2[nm][key] != am:
+                            bad.append('%s %s: summary() %r, exported %r, arg-max alpha %r' % (nm, key, s2[nm][key], int(getattr(ex_, eattr).precision), am))
+            rounds.append({'round': k_ + 1, 'what': rd['what'], 'how': how, 'fwd': bool(rd.get('fwd')), 'equal': bool(torch.equal(y_, ye_)),
+                           'maxdiff': float((y_ - ye_).abs().max()), 'changed_output': not torch.equal(y_, y), 'bad': bad[:4], 'same_module_as_before': e2 is e})
+        obs['rounds'] = rounds
     except Exception as ex:  # observation, not a crash
         import traceback
         obs['exc'] = 'EXC:%s:%s:%s' % (stage, type(ex).__name__, str(ex)[:200])
@@ -252,6 +321,12 @@ def oracle(c, o):
         return []       # outside the quantifier (non-finite activations); never produced by the generator
     if not o['equal']:
         out.append(('eval-differs-from-export', 'MPS.eval()(x) != MPS.export().eval()(x) (max abs diff %g)' % o['maxdiff']))
+    for rd in o.get('rounds', []):
+        desc = 'export() no. %d on the same MPS object after changing %s via %s%s' % (rd['round'] + 1, {'alpha': 'the selection coefficients', 'weight': 'a weight tensor', 'both': 'coefficients and a weight tensor'}[rd['what']], rd['how'], ' (+ forward)' if rd['fwd'] else '')
+        if not rd['equal']:
+            out.append(('eval-differs-from-export:re-export-after-change', '%s: MPS.eval()(x) != export()(x) (max abs diff %g)' % (desc, rd['maxdiff'])))
+        if rd['bad']:
+            out.append(('exported-precision-differs-from-summary:re-export-after-change', '%s: %s' % (desc, '; '.join(rd['bad']))))
     for lp in o.get('later', []):
         if not lp['equal']:
             out.append(('eval-differs-from-export:repeated-forward', 'forward pass no. %d through the same exported model (%s batch): MPS.eval()(x) != export(x) (max abs diff %g); the first pass was %s'
@@ -372,7 +447,7 @@ def run(ctx):
     built = ctx.build()
     ctx.rule = ('grammar networks of vlib/mps_gen.py (1..4 blocks of conv / conv-BN / depthwise / residual add of (x, conv x), of two convs, of a depthwise chain with its source / pooling, head pool-flatten-linear(-BN)-linear; '
                 'depthwise / residual blocks forced first in half of the cases, all conv biases on in 60%) x precision tuples from {2,4,8} (1..3, any order) for activations and weights x random alpha with arg-max margin >= 0.05 '
-                'x temperature in [0.05,20] (both ends forced) x gumbel/hard/disable_shared_quantizers/pre-training-forward flags x conv padding_mode {zeros, circular, reflect, replicate} with padding > 0, paddings int / same / valid x model under test {the MPS model, a copy.deepcopy / pickle round trip of it taken after construction / in training mode / after a coefficient change, coefficients of the copy changed afterwards; original must stay untouched} x moment of summary()+export() {after an eval forward, right after training-mode Gumbel forwards, after a coefficient update without forward} x schedule of 2-3 further forward passes (same / new batch, mode toggles) through the same exported model; where a layer input quantizer is not its producer output quantizer object the two are made to select different precisions. '
+                'x temperature in [0.05,20] (both ends forced) x gumbel/hard/disable_shared_quantizers/pre-training-forward flags x conv padding_mode {zeros, circular, reflect, replicate} with padding > 0, paddings int / same / valid, same-padding with even and mixed kernels (2, 4, (2,3), (3,2)) x dilation 1..3 (also inside residual adds) x model under test {the MPS model, a copy.deepcopy / pickle round trip of it taken after construction / in training mode / after a coefficient change, coefficients of the copy changed afterwards; original must stay untouched} x export() repeated 0-2 more times on the same object after coefficient / weight changes written via copy_, .data=, .data.copy_, .data[i]=, an optimizer step or load_state_dict x moment of summary()+export() {after an eval forward, right after training-mode Gumbel forwards, after a coefficient update without forward} x schedule of 2-3 further forward passes (same / new batch, mode toggles) through the same exported model; where a layer input quantizer is not its producer output quantizer object the two are made to select different precisions. '
                 'one case = one network with one coefficient assignment; distinct by (architecture, precisions, selected indices); non-trivial = at least two candidate precisions somewhere and at least 2 searchable layers')
     n = 260 if ctx.quick else 2600
     cases = []
@@ -403,6 +478,11 @@ def run(ctx):
         ctx.dist['nprec_a:%d' % len(c['ap'])] += 1
         ctx.dist['conv%dd' % c['nodes'][0].get('dim', 2)] += 1
         ctx.dist['seq:' + c.get('seq', 'eval')] += 1
+        for rd in o.get('rounds', []):
+            ctx.dist['re-export:%s:%s' % (rd['what'], rd['how'])] += 1
+        for nd in c['nodes']:
+            if nd['k'] in ('conv', 'dw') and nd.get('pad') == 'same' and (isinstance(nd['ks'], list) or nd['ks'] % 2 == 0):
+                ctx.dist['same-padding-even-kernel:dil%d' % nd.get('dil', 1)] += 1
         if G.has_reuse(c['nodes']):
             ctx.dist['layer-invoked-twice'] += 1
         if c.get('copy'):
